@@ -122,6 +122,17 @@ def run(plan):
                 res.fail("get_capabilities with an extra frame failed", repr(o))
                 return
             w.fire("caps_exchange_with_extra_valid_frame")
+        if plan.get("caps_after_poll"):
+            # history: the unit ran at an unnamed fan speed when it was first polled; only then were its
+            # capabilities queried, and they say "named speeds only"
+            dev.state["fan"] = 55
+            o = await s.do({"op": "refresh"})
+            dev.caps_pages = [([(0x0210, b"\x07"), (0x0214, b"\x01"), (0x0216, b"\x02"), (0x021F, b"\x02")], None)]
+            o = await s.do({"op": "caps"})
+            if o.kind != "ok":
+                res.fail("clean caps failed", repr(o))
+                return
+            w.fire("capabilities_learned_after_the_first_poll")
         snap0 = snapshot(ac)
         # the device's data changes
         dev.state.update(NEW_STATE)
@@ -133,6 +144,31 @@ def run(plan):
                 "n": plan.get("n", 12)}
         if s.version != 3:
             spec["place"] = "alone"          # several frames in one exchange need one TCP segment (V3)
+        if kind == "applyack":
+            # the acknowledgement of a control command arrives corrupted: it is rejected, and what the user has just
+            # set stays as set (no older report is dug out in its place)
+            spec = {"base": "honest", "edit": [["corrupt"] + list(corrupt)], "place": "alone"}
+            ac.target_temperature = 23.5
+            ac.fan_speed = 60
+            ac.eco = not ac.eco
+            mine = snapshot(ac)
+            dev.bad_frames = []
+            o = await s.do({"op": "apply", "net": [{"app": spec}]})
+            if o.kind != "ok":
+                w.probe("operation_raised_(C14_domain)")
+                return
+            if not dev.bad_frames:
+                raise RuntimeError("no corrupted frame was produced")
+            if codec.response_valid_by_stated_rule(dev.bad_frames[0]):
+                stats["exempt"] += 1
+                return
+            stats["judged"] += 1
+            after = snapshot(ac)
+            ch = [(a, mine[a], after[a]) for a in GROUPS["state"] if mine[a] != after[a]]
+            if ch:
+                res.fail("rejected state frame changed state: " + ch[0][0],
+                         f"corrupted acknowledgement of a control command: {ch}")
+            return
         if kind == "propwrite":
             # a corrupted *state* frame arrives in the exchange of a property write (apply's second exchange)
             spec = {"base": "state", "edit": [["corrupt"] + list(corrupt)],
@@ -281,7 +317,7 @@ def run(plan):
     res.add_fired(dev.fired)
     res.exempt = stats["exempt"]
     res.key = (plan["config"]["version"], kind, tuple(corrupt), bool(plan.get("fresh_first")), plan.get("ftype"),
-               bool(plan.get("embed")), plan.get("place"), plan.get("repeat"), plan.get("idle_before"))
+               bool(plan.get("embed")), plan.get("place"), plan.get("repeat"), plan.get("idle_before"), bool(plan.get("caps_after_poll")))
     res.nontrivial = stats["judged"] > 0
     return res
 
@@ -311,6 +347,7 @@ def space(tier):
                         "ftype": rng.choice([None, None, None, 0x02, 0x04, 0x05, 0x06, 0x0A]),
                         "repeat": rng.choice([0, 0, 0, 2, 3, 4]) if kind in ("energy", "humidity", "props") else 0,
                         "idle_before": rng.choice([0, 0, 0, 100.0, 1000.0, 7200.0]),
+                        "caps_after_poll": kind in ("state", "all") and rng.random() < 0.2,
                         # several frames in one exchange: the corrupted one twice / twice and then the valid one
                         "place": rng.choice(["alone", "alone", "twice", "bad_bad_good", "many_then_good"]) if kind != "caps" else
                         rng.choice(["alone", "twice"]), "n": rng.choice([7, 8, 9, 16, 33])}
@@ -322,6 +359,14 @@ def space(tier):
                 return p
             reps = 2 if tier == "thorough" else 1
             sp.add(f"{label}_{kind}", len(positions) * nvals * reps, fn2, exhaustive=(nvals == 255))
+
+    ack_pos = list(range(1, FRAME_LEN["state"]))
+
+    def applyack(j, rng):
+        pos = ack_pos[j % len(ack_pos)]
+        return {"config": cfg(2 + (j // len(ack_pos)) % 2), "kind": "applyack",
+                "corrupt": [pos, rng.randrange(1, 256), bool((j // (2 * len(ack_pos))) % 2)], "place": "alone"}
+    sp.add("corrupted_acknowledgement_of_apply", len(ack_pos) * 4 * (1 if tier == "quick" else 20), applyack, exhaustive=True)
 
     def embedded(j, rng):
         # every value of the length byte (and of the other header bytes) of a report that embeds a frame image
